@@ -1,8 +1,8 @@
 package rlwe
 
 import (
-	"math/bits"
 	"github.com/tuneinsight/lattigo/v6/ring"
+	"math/bits"
 )
 
 // C19: what the parameter constructors accept must be inside what the arithmetic layer supports.
@@ -49,7 +49,6 @@ func VerifH_C19_AcceptedWithinSupportedSize() {
 		vAssert(!accP || w < 1<<61, "accepted-"+bl+"-bit-P-modulus-within-supported-size")
 	}
 }
-
 
 // GenModuli (concrete requests, generator run natively): the primes generated for LogQ / LogP requests are distinct,
 // congruent to 1 modulo 2N, within one bit of the requested size and never above 2^61 (the bound of the lazy NTT).
